@@ -82,8 +82,9 @@ pub fn run_stage(spec: &StageSpec, prop_id: &str, seed: u64, root: &Path) -> Sta
         let (prefix, dir, name, phases, cap, id, shards, timeout) = (prefix.clone(), dir.clone(), spec.name.to_string(), spec.phases.to_string(), spec.case_cap, prop_id.to_string(), spec.shards, spec.timeout_s);
         std::thread::spawn(move || {
             let out = dir.join(format!("{i}.json"));
-            let mut c = Command::new(&prefix[0]);
-            c.args(&prefix[1..]).args(["shard", &id, "quick", &seed.to_string(), &i.to_string(), &shards.to_string()]).arg(&out)
+            // sanitizers reserve terabytes of virtual address space for shadow memory: lift the soft cap set by ./check
+            let mut c = Command::new("sh");
+            c.arg("-c").arg("ulimit -S -v unlimited 2>/dev/null; exec \"$@\"").arg("sh").args(&prefix).args(["shard", &id, "quick", &seed.to_string(), &i.to_string(), &shards.to_string()]).arg(&out)
                 .env("LC3MON_STAGE", &name).env("LC3MON_CASE_CAP", cap.to_string()).env("CARGO_NET_OFFLINE", "true");
             if !phases.is_empty() { c.env("LC3MON_PHASES", &phases); }
             match name.as_str() {
@@ -100,6 +101,9 @@ pub fn run_stage(spec: &StageSpec, prop_id: &str, seed: u64, root: &Path) -> Sta
         match r {
             None => { res.status = "stage_unavailable".into(); res.detail = "cannot spawn".into(); }
             Some((-999, _)) => { if res.status == "clean" { res.status = "timeout".into(); } res.detail = format!("shard {i} exceeded {} s", spec.timeout_s); }
+            Some((_, text)) if text.contains("failed to allocate") || text.contains("ReserveShadowMemoryRange") || text.contains("cannot allocate memory") => {
+                res.status = "stage_unavailable".into(); res.detail = format!("shard {i}: the sanitizer runtime could not reserve its shadow memory ({})", text.lines().find(|l| l.contains("allocate") || l.contains("Reserve")).unwrap_or("").trim());
+            }
             Some((code, text)) => {
                 if let Some(line) = first_report_line(spec.name, &text) {
                     let frame = first_repo_frame(&text);
